@@ -41,7 +41,9 @@ CLAIMS = {
         text="Proved in Lean: abs ignores versions, so mixed-version logs satisfy the same read theorems; Migrate to either version while "
              "closed and reopening with any version options keep the invariant, the live sequence and NextOffset; delete-by-rewrite keeps "
              "content for every KeepRewriteVersion/NewSegmentsVersion; after migration every log is in the target version; migrate is "
-             "idempotent. Correspondence: histories where every reopen re-draws the three version options and may Migrate; version byte "
+             "idempotent; after a Delete every segment file is an untouched old file, the new empty head in NewSegmentsVersion, or the rewritten "
+             "segment - in its source's version with KeepRewriteVersion, in NewSegmentsVersion without, index file in the same version "
+             "(delete_versions); the segment a rollover creates is in NewSegmentsVersion (rollover_version). Correspondence: histories where every reopen re-draws the three version options and may Migrate; version byte "
              "and size of every file observed.",
         note=COMMON_NOTE),
     'C15': dict(
